@@ -27,6 +27,7 @@ package main
 
 import (
 	"bytes"
+	"context"
 	"encoding/hex"
 	"encoding/json"
 	"flag"
@@ -37,6 +38,7 @@ import (
 	"path/filepath"
 	"sort"
 	"strings"
+	"time"
 
 	beacon "github.com/oasisprotocol/oasis-core/go/beacon/api"
 	"github.com/oasisprotocol/oasis-core/go/common"
@@ -52,7 +54,10 @@ import (
 	churp "github.com/oasisprotocol/oasis-core/go/keymanager/churp"
 	secrets "github.com/oasisprotocol/oasis-core/go/keymanager/secrets"
 	registry "github.com/oasisprotocol/oasis-core/go/registry/api"
+	roothashState "github.com/oasisprotocol/oasis-core/go/consensus/cometbft/apps/roothash/state"
 	roothash "github.com/oasisprotocol/oasis-core/go/roothash/api"
+	"github.com/oasisprotocol/oasis-core/go/roothash/api/commitment"
+	scheduler "github.com/oasisprotocol/oasis-core/go/scheduler/api"
 	staking "github.com/oasisprotocol/oasis-core/go/staking/api"
 	upgrade "github.com/oasisprotocol/oasis-core/go/upgrade/api"
 	vault "github.com/oasisprotocol/oasis-core/go/vault/api"
@@ -77,6 +82,10 @@ type scen struct {
 	B     *muxdrv.Replica
 
 	fresh, fresh2 *muxdrv.Validator
+	// rt1: compute runtime with a compute node (gets a committee at the first epoch transition),
+	// incoming queue of 2; rt2: runtime without nodes (no committee, suspended after the transition).
+	rt1, rt2 common.Namespace
+	cnode    *muxdrv.Validator
 	nobody        *muxdrv.Key
 	vaultAddr     staking.Address
 	setupFail     []string
@@ -86,6 +95,18 @@ type scen struct {
 
 const firstTwin = 4 // blocks 1..3 build state; twin blocks are firstTwin..N
 
+// With EpochInterval 3 the first epoch transition (committee election) happens in block 6:
+// from then on rt1 is active; block rtFillH fills its incoming message queue.
+const (
+	epochInterval = 3
+	rtActiveH     = 6
+	rtFillH       = 7
+)
+
+func (s *scen) rt3() common.Namespace {
+	return common.NewTestNamespaceFromSeed([]byte(fmt.Sprintf("verif/%d/rt3", s.seed)), common.NamespaceTest)
+}
+
 func (s *scen) cfg(name string) muxdrv.ReplicaConfig {
 	return muxdrv.ReplicaConfig{Name: name, Identity: s.g.Validators[s.prop].Identity}
 }
@@ -93,11 +114,16 @@ func (s *scen) cfg(name string) muxdrv.ReplicaConfig {
 func mustQ(v uint64) quantity.Quantity { return *quantity.NewFromUint64(v) }
 
 func buildScenario(seed uint64, n int) (*scen, error) {
-	opts := muxdrv.GenesisOpts{}
-	if seed%2 == 1 {
-		// every other history runs with a non-zero minimum transacting balance, which arms the
-		// post-transfer / post-deposit balance checks of the staking handlers
-		opts.Mutate = func(doc *genesis.Document) { doc.Staking.Parameters.MinTransactBalance = mustQ(1000) }
+	opts := muxdrv.GenesisOpts{EpochInterval: epochInterval}
+	opts.Mutate = func(doc *genesis.Document) {
+		// runtimes without a committee get suspended at the epoch transition
+		doc.RootHash.Parameters.DebugDoNotSuspendRuntimes = false
+		doc.RootHash.Parameters.GasCosts = transaction.Costs{roothash.GasOpSubmitMsg: 1500, roothash.GasOpComputeCommit: 1800, roothash.GasOpEvidence: 1900}
+		if seed%2 == 1 {
+			// every other history runs with a non-zero minimum transacting balance, which arms the
+			// post-transfer / post-deposit balance checks of the staking handlers
+			doc.Staking.Parameters.MinTransactBalance = mustQ(1000)
+		}
 	}
 	g, err := muxdrv.NewGenesis(seed, opts)
 	if err != nil {
@@ -107,6 +133,11 @@ func buildScenario(seed uint64, n int) (*scen, error) {
 	s.fresh = muxdrv.NewValidator(seed, 0)
 	s.fresh2 = muxdrv.NewValidator(seed, 1)
 	s.nobody = muxdrv.NewKey(fmt.Sprintf("verif/%d/nobody", seed))
+	s.rt1 = common.NewTestNamespaceFromSeed([]byte(fmt.Sprintf("verif/%d/rt1", seed)), common.NamespaceTest)
+	s.rt2 = common.NewTestNamespaceFromSeed([]byte(fmt.Sprintf("verif/%d/rt2", seed)), common.NamespaceTest)
+	cn := *muxdrv.NewValidator(seed, 2)
+	cn.Entity = g.Validators[0].Entity // a second node (compute worker) of validator 0's entity
+	s.cnode = &cn
 	s.B, err = muxdrv.NewReplica(g, s.cfg("B"))
 	if err != nil {
 		return nil, err
@@ -177,7 +208,7 @@ func buildScenario(seed uint64, n int) (*scen, error) {
 			}
 			// Fund the keys that otherwise own nothing (node keys sign node registrations), so that
 			// they pass authentication also in the histories with a minimum transacting balance.
-			poor := []*muxdrv.Key{s.fresh.Entity, s.fresh.Node, s.fresh2.Entity, s.fresh2.Node}
+			poor := []*muxdrv.Key{s.fresh.Entity, s.fresh.Node, s.fresh2.Entity, s.fresh2.Node, s.cnode.Node}
 			for _, vv := range v {
 				poor = append(poor, vv.Node)
 			}
@@ -187,6 +218,14 @@ func buildScenario(seed uint64, n int) (*scen, error) {
 					return muxdrv.TxTransfer(n, fee(), to, 5000)
 				}))
 			}
+			for _, id := range []common.Namespace{s.rt1, s.rt2} {
+				txs = append(txs, sign(v[0].Entity, func(n uint64) *transaction.Transaction {
+					return registry.NewRegisterRuntimeTx(n, muxdrv.Fee(uint64(rng.Intn(60)), 4*muxdrv.DefaultGas), s.runtimeDesc(id, v[0].Entity.Public()))
+				}))
+			}
+			txs = append(txs, sign(v[0].Entity, func(n uint64) *transaction.Transaction {
+				return muxdrv.TxRegisterEntity(n, fee(), v[0].Entity, []signature.PublicKey{v[0].Node.Public(), s.cnode.Node.Public()})
+			}))
 			txs = append(txs, sign(acc[7].Key, func(n uint64) *transaction.Transaction {
 				s.vaultAddr = vault.NewVaultAddress(acc[7].Address, n+1)
 				au := vault.Authority{Addresses: []staking.Address{acc[7].Address}, Threshold: 1}
@@ -205,10 +244,22 @@ func buildScenario(seed uint64, n int) (*scen, error) {
 			txs = append(txs, sign(acc[7].Key, func(n uint64) *transaction.Transaction {
 				return muxdrv.TxTransfer(n, fee(), s.vaultAddr, 5000)
 			}))
+			txs = append(txs, sign(s.cnode.Node, func(n uint64) *transaction.Transaction {
+				nd := muxdrv.NodeDescriptor(s.cnode, 1000, node.RoleComputeWorker)
+				nd.Runtimes = []*node.Runtime{{ID: s.rt1}}
+				return muxdrv.TxRegisterNode(n, muxdrv.Fee(uint64(rng.Intn(60)), 4*muxdrv.DefaultGas), s.cnode, nd)
+			}))
 		case 3:
 			txs = append(txs, sign(v[0].Entity, func(n uint64) *transaction.Transaction {
 				return muxdrv.TxCastVote(n, fee(), 1, governance.VoteYes)
 			}))
+		case rtFillH:
+			for i := 0; i < 2; i++ {
+				// (signed by a companion signer: the failing transactions' signers never sign in a twin block)
+				txs = append(txs, sign(acc[1].Key, func(n uint64) *transaction.Transaction {
+					return roothash.NewSubmitMsgTx(n, fee(), &roothash.SubmitMsg{ID: s.rt1, Fee: mustQ(100), Tokens: mustQ(uint64(2000 + i)), Data: []byte("fill")})
+				}))
+			}
 		}
 		// Companions: only accounts 0 and 1 sign, and only pay each other.
 		nc := rng.Intn(4)
@@ -245,6 +296,53 @@ func buildScenario(seed uint64, n int) (*scen, error) {
 		}
 	}
 	return s, nil
+}
+
+// runtimeDesc is a minimal compute runtime: one executor worker, incoming message queue of
+// two, minimum incoming message fee 100.
+func (s *scen) runtimeDesc(id common.Namespace, ent signature.PublicKey) *registry.Runtime {
+	rt := &registry.Runtime{
+		Versioned: cbor.NewVersioned(registry.LatestRuntimeDescriptorVersion),
+		ID:        id,
+		EntityID:  ent,
+		Kind:      registry.KindCompute,
+		Executor:  registry.ExecutorParameters{GroupSize: 1, RoundTimeout: 20, MaxMessages: 32},
+		TxnScheduler: registry.TxnSchedulerParameters{
+			BatchFlushTimeout: time.Second, MaxBatchSize: 1, MaxBatchSizeBytes: 1024, ProposerTimeout: 2 * time.Second,
+			MaxInMessages: 2,
+		},
+		AdmissionPolicy: registry.RuntimeAdmissionPolicy{AnyNode: &registry.AnyNodeRuntimeAdmissionPolicy{}},
+		Constraints: map[scheduler.CommitteeKind]map[scheduler.Role]registry.SchedulingConstraints{
+			scheduler.KindComputeExecutor: {
+				scheduler.RoleWorker:       {MinPoolSize: &registry.MinPoolSizeConstraint{Limit: 1}},
+				scheduler.RoleBackupWorker: {MinPoolSize: &registry.MinPoolSizeConstraint{Limit: 0}},
+			},
+		},
+		GovernanceModel: registry.GovernanceEntity,
+		Staking:         registry.RuntimeStakingParameters{MinInMessageFee: mustQ(100)},
+		Deployments:     []*registry.VersionInfo{{}},
+	}
+	rt.Genesis.StateRoot.Empty()
+	return rt
+}
+
+// rtInfo describes the roothash state of a runtime on B at a height (for the probe / histograms).
+func (s *scen) rtInfo(h int, id common.Namespace) string {
+	tree, cl, err := s.B.TreeAt(int64(h))
+	if err != nil {
+		return "err:" + err.Error()
+	}
+	defer cl()
+	st, err := roothashState.NewImmutableState(tree).RuntimeState(context.Background(), id)
+	if err != nil {
+		return "none(" + err.Error() + ")"
+	}
+	meta, _ := roothashState.NewImmutableState(tree).IncomingMessageQueueMeta(context.Background(), id)
+	q := -1
+	if meta != nil {
+		q = int(meta.Size)
+	}
+	return fmt.Sprintf("suspended=%v committee=%v pool=%v queue=%d round=%d", st.Suspended, st.Committee != nil, st.CommitmentPool != nil, q, st.LastBlock.Header.Round)
 }
 
 // replicaAt boots a fresh replica and replays B's blocks 1..h-1.
@@ -677,6 +775,7 @@ type built struct {
 	tx     *transaction.Transaction
 	hkind  int
 	entity bool // signed by a validator entity (its balance moves in BeginBlock: no boundary fees)
+	minH   int  // the class needs a pre-state of at least this height (0 = any)
 }
 
 // execFailing builds a transaction that is valid up to and including authentication and
@@ -939,6 +1038,62 @@ func (c *gctx) execFailing() built {
 			}))
 		},
 		func() built {
+			// the runtime's incoming queue (size 2) was filled in block rtFillH
+			b := inTx(mk("roothash/msg-queue-full", c.plain(), func(n uint64, f *transaction.Fee) *transaction.Transaction {
+				return roothash.NewSubmitMsgTx(n, f, &roothash.SubmitMsg{ID: s.rt1, Fee: mustQ(100 + uint64(r.Intn(50))), Tokens: mustQ(1000 + uint64(r.Intn(500))), Data: []byte("x")})
+			}))
+			b.minH = rtFillH + 1
+			return b
+		},
+		func() built {
+			b := mk("roothash/msg-fee-below-min", c.plain(), func(n uint64, f *transaction.Fee) *transaction.Transaction {
+				return roothash.NewSubmitMsgTx(n, f, &roothash.SubmitMsg{ID: s.rt1, Fee: mustQ(uint64(r.Intn(100))), Tokens: mustQ(1050)})
+			})
+			b.minH = rtActiveH + 1
+			return b
+		},
+		func() built {
+			k := c.plain()
+			b := inTx(mk("roothash/msg-insufficient-balance", k, func(n uint64, f *transaction.Fee) *transaction.Transaction {
+				return roothash.NewSubmitMsgTx(n, f, &roothash.SubmitMsg{ID: s.rt1, Fee: mustQ(100), Tokens: mustQ(c.bal(k))})
+			}))
+			b.minH = rtActiveH + 1
+			return b
+		},
+		func() built {
+			b := mk("roothash/msg-suspended-runtime", c.plain(), func(n uint64, f *transaction.Fee) *transaction.Transaction {
+				return roothash.NewSubmitMsgTx(n, f, &roothash.SubmitMsg{ID: s.rt2, Fee: mustQ(100), Tokens: mustQ(50)})
+			})
+			return b
+		},
+		func() built {
+			return mk("roothash/commit-empty-known-runtime", s.cnode.Node, func(n uint64, f *transaction.Fee) *transaction.Transaction {
+				return roothash.NewExecutorCommitTx(n, f, s.rt1, []commitment.ExecutorCommitment{{NodeID: s.cnode.Node.Public()}})
+			})
+		},
+		func() built {
+			return mk("registry/runtime-wrong-signer", c.plain(), func(n uint64, f *transaction.Fee) *transaction.Transaction {
+				return registry.NewRegisterRuntimeTx(n, f, s.runtimeDesc(s.rt3(), v[0].Entity.Public()))
+			})
+		},
+		func() built {
+			return inTx(mk("registry/runtime-no-stake", s.fresh.Entity, func(n uint64, f *transaction.Fee) *transaction.Transaction {
+				return registry.NewRegisterRuntimeTx(n, f, s.runtimeDesc(s.rt3(), s.fresh.Entity.Public()))
+			}))
+		},
+		func() built {
+			return inTx(mk("registry/runtime-update-not-allowed", v[0].Entity, func(n uint64, f *transaction.Fee) *transaction.Transaction {
+				d := s.runtimeDesc(s.rt1, v[0].Entity.Public())
+				d.Genesis.Round = 5 + uint64(r.Intn(5))
+				return registry.NewRegisterRuntimeTx(n, f, d)
+			}))
+		},
+		func() built {
+			return mk("registry/runtime-update-other-entity", v[1%len(v)].Entity, func(n uint64, f *transaction.Fee) *transaction.Transaction {
+				return registry.NewRegisterRuntimeTx(n, f, s.runtimeDesc(s.rt1, v[1%len(v)].Entity.Public()))
+			})
+		},
+		func() built {
 			return mk("beacon/set-epoch", c.plain(), func(n uint64, f *transaction.Fee) *transaction.Transaction {
 				return muxdrv.TxSetEpoch(n, f, 7)
 			})
@@ -1057,10 +1212,18 @@ func (c *gctx) execFailing() built {
 	// Round-robin over the catalogue (so that even a small run meets every class), the two
 	// generic generators get every fourth draw.
 	cycle++
+	gfn := gens[(cycle-cycle/4)%(len(gens)-2)]
 	if cycle%4 == 0 {
-		return gens[len(gens)-1-r.Intn(2)]()
+		gfn = gens[len(gens)-1-r.Intn(2)]
 	}
-	return gens[(cycle-cycle/4)%(len(gens)-2)]()
+	b := gfn()
+	if b.minH > c.h && b.minH <= s.N {
+		// the class needs later state (e.g. the runtime's committee, a full queue): move the case
+		c.h = b.minH + r.Intn(s.N-b.minH+1)
+		c.pre = kvMap(s.dumps[c.h-1])
+		b = gfn()
+	}
+	return b
 }
 
 // validBase builds a transaction that would succeed (for stage modifiers and gas sweeps).
@@ -1110,6 +1273,9 @@ func (c *gctx) genCase() *Case {
 	switch p := r.Intn(100); {
 	case p < 50: // handler failures
 		b := c.execFailing()
+		if c.h != cs.Height {
+			cs.Height, cs.Pos = c.h, r.Intn(len(s.user[c.h])+1)
+		}
 		return set("exec", b.label, muxdrv.Sign(b.key, b.tx), b)
 	case p < 64: // gas limit sweep on an otherwise valid transaction
 		b := c.validBase()
@@ -1270,7 +1436,21 @@ func main() {
 	bursts := flag.Int("bursts", 1, "CheckTx/EstimateGas bursts per scenario")
 	replay := flag.String("replay", "", "replay a case description")
 	verbose := flag.Bool("v", false, "")
+	probe := flag.Bool("probe", false, "print the setup results of one history and exit")
 	flag.Parse()
+	if *probe {
+		s, err := buildScenario(*seed*1000, *blocks)
+		if err != nil {
+			panic(err)
+		}
+		fmt.Println("setup failures:", s.setupFail)
+		for h := 1; h <= s.N; h++ {
+			ep, _, _ := s.B.Epoch(int64(h))
+			fmt.Printf("h=%d epoch=%d rt1: %s | rt2: %s\n", h, ep, s.rtInfo(h, s.rt1), s.rtInfo(h, s.rt2))
+		}
+		s.B.Close()
+		return
+	}
 	if *out == "" {
 		d, _ := os.MkdirTemp("", "failtx-")
 		defer os.RemoveAll(d)
